@@ -35,6 +35,16 @@ var c01genKinds = []struct {
 	{"Ch", reflect.TypeOf((chan int)(nil)), ""},
 	{"Fn", reflect.TypeOf((func())(nil)), ""},
 	{"TU", reflect.TypeOf(c01TU{}), ""},
+	// shapes that the seeded rounds showed to matter
+	{"PN", reflect.TypeOf((*struct {
+		Tags  []int16
+		Level *int
+	})(nil)), ""}, // pointer to an all-nilable struct (pointerified type == original type)
+	{"SA", reflect.TypeOf([][1]*c01genSub(nil)), ""},       // pointer-bearing arrays inside a slice
+	{"MK", reflect.TypeOf(map[c01key]int8(nil)), ""},       // struct map keys holding a pointer
+	{"MM", reflect.TypeOf(map[string]map[string]int8(nil)), ""}, // map of maps
+	{"TUr", reflect.TypeOf(c01TUrefs{}), ""},                // text-unmarshalable struct with reference fields
+	{"KeepM", reflect.TypeOf(map[string]int8(nil)), `dials:"-"`}, // exported, unmanaged, reference-bearing
 }
 
 // c01genDefault fills a value of the generated type with symbolic defaults.
@@ -107,11 +117,11 @@ func c01gen(nfields, nlayers int) {
 	zzverif.Reached("c01-gen-end")
 }
 
-// HarnessC01Gen2: all 12+144 types of 1-2 fields, one layer.
+// HarnessC01Gen2: all 18+324 types of 1-2 fields, one layer.
 func HarnessC01Gen2() { c01gen(1+zzverif.Choose("nfields", 2), 1) }
 
 // HarnessC01Gen2L2: 2 fields, two layers.
 func HarnessC01Gen2L2() { c01gen(2, 2) }
 
-// HarnessC01Gen3: all 1728 types of 3 fields, one layer.
+// HarnessC01Gen3: all 5832 types of 3 fields, one layer.
 func HarnessC01Gen3() { c01gen(3, 1) }
